@@ -568,6 +568,20 @@ func (env *specEnv) evalCall(t *ast.CallExpr) Value {
 			vn := t.Args[0].(*ast.Ident).Name
 			lo := env.toInt64(env.eval(t.Args[1]))
 			hi := env.toInt64(env.eval(t.Args[2]))
+			if lo.IsConst() && hi.IsConst() {
+				l, h := lo.SignedVal().Int64(), hi.SignedVal().Int64()
+				if h-l <= 64 {
+					var parts []*Term
+					for i := l; i < h; i++ {
+						ne := env.bind(vn, Value{T: intT, C: []*Term{BVI(i, 64)}})
+						parts = append(parts, ne.evalBool(t.Args[3]))
+					}
+					if id.Name == "forall" {
+						return boolV(And(parts...))
+					}
+					return boolV(Or(parts...))
+				}
+			}
 			bv := BoundVar(vn, BV(64))
 			ne := env.bind(vn, Value{T: intT, C: []*Term{bv}})
 			body := ne.evalBool(t.Args[3])
